@@ -22,22 +22,22 @@ import (
 // every operation what may have changed.
 
 type c18Op struct {
-	Kind   string `json:"kind"`             // init | showconfig | run | mutate | defaults
-	Pkg    string `json:"pkg,omitempty"`    // init: the argument string
-	Config string `json:"config,omitempty"` // --config target ("" = default .mockery.yml); may contain {{ROOT}}
-	Bytes  []byte `json:"bytes,omitempty"`  // mutate: new content
-	Delete bool   `json:"delete,omitempty"` // mutate: remove the file
-	FlagFirst bool `json:"flag_first,omitempty"` // `mockery --config X init P` instead of `mockery init --config X P`
+	Kind      string `json:"kind"`                 // init | showconfig | run | mutate | defaults
+	Pkg       string `json:"pkg,omitempty"`        // init: the argument string
+	Config    string `json:"config,omitempty"`     // --config target ("" = default .mockery.yml); may contain {{ROOT}}
+	Bytes     []byte `json:"bytes,omitempty"`      // mutate: new content
+	Delete    bool   `json:"delete,omitempty"`     // mutate: remove the file
+	FlagFirst bool   `json:"flag_first,omitempty"` // `mockery --config X init P` instead of `mockery init --config X P`
 	Cwd       string `json:"cwd,omitempty"`        // directory (relative to the root) the command runs in
 	Obstacle  string `json:"obstacle,omitempty"`   // mutate: dir | symlink | dangling-symlink at the target
 }
 
 type c18Case struct {
-	Tree  world.Tree          `json:"tree"`
-	Ops   []c18Op             `json:"ops"`
-	Seed  uint64              `json:"seed"`
-	Real  map[string][]string `json:"real"`     // real package path → interface names
-	Dirs  map[string]string   `json:"pkg_dirs"` // real package path → directory
+	Tree world.Tree          `json:"tree"`
+	Ops  []c18Op             `json:"ops"`
+	Seed uint64              `json:"seed"`
+	Real map[string][]string `json:"real"`     // real package path → interface names
+	Dirs map[string]string   `json:"pkg_dirs"` // real package path → directory
 }
 
 var c18Weird = []string{
@@ -426,7 +426,7 @@ func c18MapDiff(a, b map[string]any) string {
 func RunC18(c *core.Ctx) int {
 	c.PrepareRepo(true)
 	n := 150 + 2*len(c18Weird)
-	budget := 170 * time.Second
+	budget := 20 * time.Minute // quick: the case count is the contract, the clock only a watchdog
 	if c.Tier == "thorough" {
 		n = 3000 + 2*len(c18Weird)
 		budget = 28 * time.Minute
